@@ -322,6 +322,29 @@ def t_randint(interp: Any, args: List[Any], kwargs: Dict[str, Any]) -> Any:
     return BitTensor(size, name, R)
 
 
+class FInfo:
+    """ASSUMED torch.finfo(dtype)"""
+
+    TABLE = {"float32": (24, -126, 127), "float64": (53, -1022, 1023), "float16": (11, -14, 15), "bfloat16": (8, -126, 127)}
+
+    def __init__(self, dtype: str):
+        sb, emin, emax = self.TABLE[dtype]
+        self.vals = {"bits": ELEM_BYTES[dtype] * 8, "eps": Fraction(2) ** (1 - sb), "max": Fraction(2) ** emax * (2 - Fraction(2) ** (1 - sb)), "tiny": Fraction(2) ** emin, "smallest_normal": Fraction(2) ** emin}
+        self.vals["min"] = -self.vals["max"]
+
+    def pyvc_getattr(self, interp: Any, name: str) -> Any:
+        if name in self.vals:
+            return self.vals[name]
+        raise PyRaise("AttributeError", name)
+
+
+def t_finfo(interp: Any, args: List[Any], kwargs: Dict[str, Any]) -> Any:
+    dt = args[0]
+    if not isinstance(dt, DTypeTok) or dt.name not in FInfo.TABLE:
+        raise OutOfReach("torch.finfo of a non-float dtype")
+    return FInfo(dt.name)
+
+
 def externals(interp: Any, name: str) -> Any:
     from . import torchmodel
     from .interp import Builtin, TypeTok
@@ -334,6 +357,7 @@ def externals(interp: Any, name: str) -> Any:
             "clip": Builtin("torch.clip", t_clip),
             "clamp": Builtin("torch.clamp", t_clip),
             "randint": Builtin("torch.randint", t_randint),
+            "finfo": Builtin("torch.finfo", t_finfo),
             "autograd": _mod("torch.autograd", {"Function": torchmodel.AUTOGRAD_FUNCTION, "function": _mod("torch.autograd.function", {"FunctionCtx": TypeTok("FunctionCtx")})}),
         }
         for n, d in DT.items():
